@@ -257,7 +257,11 @@ func NewClassifier(threshold float64) *Classifier {
 // It is an invariant of the classifier that calling Match(Normalize(in)) will
 // return the same results as Match(in).
 func (c *Classifier) Normalize(in []byte) []byte {
-	doc, err := tokenizeStream(bytes.NewReader(in), false, c.dict, true)
+	// The words of this one text go into a dictionary of their own: adding them
+	// to the classifier's dictionary would turn words unknown to the corpus into
+	// known ones and change what later Match calls report.
+	dict := newDictionary()
+	doc, err := tokenizeStream(bytes.NewReader(in), false, dict, true)
 	if err != nil {
 		panic("should not be reachable, since bytes.NewReader().Read() should never fail")
 	}
@@ -268,7 +272,7 @@ func (c *Classifier) Normalize(in []byte) []byte {
 	case 0:
 		return nil
 	case 1:
-		buf.WriteString(c.dict.getWord(doc.Tokens[0].ID))
+		buf.WriteString(dict.getWord(doc.Tokens[0].ID))
 		return buf.Bytes()
 	}
 
@@ -283,7 +287,7 @@ func (c *Classifier) Normalize(in []byte) []byte {
 	// An EOL token in first position (the first line holds no words) is written
 	// by the line-advance logic below like every other EOL token; writing it
 	// here as well would push all following text one line down.
-	if first := c.dict.getWord(doc.Tokens[0].ID); first != eol {
+	if first := dict.getWord(doc.Tokens[0].ID); first != eol {
 		buf.WriteString(first)
 	}
 	for _, t := range doc.Tokens[1:] {
@@ -294,7 +298,7 @@ func (c *Classifier) Normalize(in []byte) []byte {
 		}
 
 		// Only write tokens that aren't EOL
-		txt := c.dict.getWord(t.ID)
+		txt := dict.getWord(t.ID)
 
 		if txt != eol {
 			// Only put a space between tokens if the previous token was on the same
